@@ -74,7 +74,9 @@ pub struct TlsCase {
 
 pub struct TlsSim;
 
-const HOSTS: [&str; 9] = ["sim.test", "SIM.Test", "a.test", "127.0.0.1", "10.0.0.7", "[::1]", "other.example", "10.0.0.9", "[2001:db8::5]"];
+/// (`bad~host.example` is a legal URI host that is no legal TLS server name: no handshake can be
+/// made for it, so a TLS scheme must fail)
+const HOSTS: [&str; 10] = ["sim.test", "SIM.Test", "a.test", "127.0.0.1", "10.0.0.7", "[::1]", "other.example", "10.0.0.9", "[2001:db8::5]", "bad~host.example"];
 const SCHEMES: [&str; 8] = ["https", "wss", "http", "ws", "foo", "HTTPS", "Wss", "HTTP"];
 
 /// hosts covered by the SANs of the `good` fixture certificate
